@@ -139,46 +139,53 @@ class Checker:
         E.st.ghost.setdefault("policy_actions", []).append(a)
         return a
 
-    def store(self, E, kw):
+    def store(self, E, kw, site=None, need=None, term_required=None):
+        """site: label of the store site when a routine has several; need / term_required:
+        fields the record type must carry (defaults: cfg.store_need / cfg.store_term, else the
+        replay-buffer transition)"""
         if "C01" not in self.kinds:
             return
+        sfx = f"[{site}]" if site else ""
         f = self.env(E).fields
         name = f["$name"]
         from pyvc.lib.gym_model import env_funcs
 
         fn = env_funcs(name)
         n1 = C.to_z3(C.binop("-", f["$nsteps"], 1))
-        E.oblige("store.pre.after_a_step", C.compare(">=", self.executed(E), 1))
+        E.oblige(f"store.pre.after_a_step{sfx}", C.compare(">=", self.executed(E), 1))
         want = {
             "observation": f["$before"], "obs": f["$before"],
-            "action": f["$action"], "actions": f["$action"],
+            "action": f["$action"], "actions": f["$action"], "act": f["$action"],
             "reward": Sym(fn["REW"](n1)), "rewards": Sym(fn["REW"](n1)),
             "next_observation": Sym(fn["OBS"](n1)), "next_obs": Sym(fn["OBS"](n1)),
             "termination": Sym(fn["TERM"](n1)), "terminated": Sym(fn["TERM"](n1)), "terminations": Sym(fn["TERM"](n1)),
             "truncated": Sym(fn["TRUNC"](n1)), "truncations": Sym(fn["TRUNC"](n1)),
         }
-        need = {"observation", "action", "reward", "next_observation"}
+        if need is None:
+            need = getattr(self.cfg, "store_need", None) or {"observation", "action", "reward", "next_observation"}
+        if term_required is None:
+            term_required = getattr(self.cfg, "store_term", True)
         have = set()
         for k, v in kw.items():
             if k not in want:
-                E.st.fail(f"store.pre.known_field[{k}]", "unexpected field")
+                E.st.fail(f"store.pre.known_field[{k}]{sfx}", "unexpected field")
                 continue
-            canon = {"obs": "observation", "actions": "action", "rewards": "reward", "next_obs": "next_observation"}.get(k, k)
+            canon = {"obs": "observation", "actions": "action", "act": "action", "rewards": "reward", "next_obs": "next_observation"}.get(k, k)
             have.add(canon)
             w = want[k]
             if isinstance(v, Anything) or isinstance(w, Anything):
-                E.st.fail(f"store.pre.{canon}", f"stored value {v!r}")
+                E.st.fail(f"store.pre.{canon}{sfx}", f"stored value {v!r}")
                 continue
             try:
                 eq = same_value(v, w)
             except C.Unsupported as e:
-                E.st.fail(f"store.pre.{canon}", str(e))
+                E.st.fail(f"store.pre.{canon}{sfx}", str(e))
                 continue
-            E.oblige(f"store.pre.{canon}_is_what_the_step_produced", eq)
-        for k in sorted(need - have):
-            E.st.fail(f"store.pre.{k}_present", "transition stored without this field")
-        if not ({"termination", "terminated", "terminations"} & set(kw)):
-            E.st.fail("store.pre.termination_flag_present", "transition stored without termination flag")
+            E.oblige(f"store.pre.{canon}_is_what_the_step_produced{sfx}", eq)
+        for k in sorted(set(need) - have):
+            E.st.fail(f"store.pre.{k}_present{sfx}", "transition stored without this field")
+        if term_required and not ({"termination", "terminated", "terminations"} & set(kw)):
+            E.st.fail(f"store.pre.termination_flag_present{sfx}", "transition stored without termination flag")
 
     # C11 ---------------------------------------------------------------
     def update(self, E, what):
@@ -272,7 +279,8 @@ def env_hook(E, kind, **kw):
             E.oblige("step.pre.episode_running", C.mk(C.as_bool(env.fields["$alive"])) if not isinstance(env.fields["$alive"], bool) else env.fields["$alive"])
         if "C11" in ck.kinds and E.shared.budget is not None:
             # never more steps than the remaining budget
-            E.oblige("step.pre.within_budget", C.compare("<", ck.executed(E), E.shared.budget))
+            # not assumed after a failure: a routine that oversteps must also fail post.budget
+            E.oblige("step.pre.within_budget", C.compare("<", ck.executed(E), E.shared.budget), assume_after=False)
         if "C10" in ck.kinds and not ck.cfg.discrete:
             a = kw["action"]
             known = E.st.ghost.get("in_bounds_actions", [])
@@ -280,7 +288,7 @@ def env_hook(E, kind, **kw):
                 E.st.ok("step.pre.action_from_bounded_source")
             else:
                 E.st.fail("step.pre.action_from_bounded_source", f"action {a!r} is neither action_space.sample() nor the output of a bounds-respecting sampler")
-        if "C13" in ck.kinds and ck.cfg.discrete:
+        if "C13" in ck.kinds and getattr(ck.cfg, "c13_step", None) is not None:
             ck.cfg.c13_step(E, ck, kw["action"])
 
 
@@ -467,6 +475,8 @@ def loop_task(cfg: Cfg, kinds, scen_name="", scen=None, with_logger=False):
         shared.budget = None
         shared.total_episodes = None
         shared.done0 = 0
+        if cfg.setup_extra is not None:
+            cfg.setup_extra(shared)
 
     def harness(E):
         args, names = build_args(E, cfg, scen)
@@ -492,6 +502,8 @@ def loop_task(cfg: Cfg, kinds, scen_name="", scen=None, with_logger=False):
         E.st.ghost["epoch0"] = 0
         if cfg.fn == "train_td7":
             E.st.ghost["epoch0"] = C.smax(0, C.binop("-", sh.s0, args["learning_starts"]))
+        if cfg.pre is not None:
+            cfg.pre(E, ck, args)
         result = E.call(cfg.qual, **args)
         executed = ck.executed(E)
         done = C.binop("-", env.fields["$ndone"], sh.done0)
@@ -523,6 +535,8 @@ def loop_task(cfg: Cfg, kinds, scen_name="", scen=None, with_logger=False):
 
 
 Cfg.post = None
+Cfg.setup_extra = None  # setup_extra(shared): additional hooks / loop specs of one routine
+Cfg.pre = None  # pre(E, ck, args): ghost initialisation right before the routine is called
 
 
 # ------------------------------------------------------------ common stubs
@@ -873,4 +887,20 @@ def tasks_for(kinds, names=None):
         out.append(loop_task(cfg, kinds))
         if cfg.episodes:
             out.append(loop_task(cfg, kinds, "episode-limit", {"total_episodes": lambda E: E.int("total_episodes", 1)}))
+    # tabular loops, on-policy collectors, rollout helper (contracts/loops_extra.py)
+    out.extend(loops_extra.extra_tasks(kinds, names))
     return out
+
+
+def c13_loop_tasks():
+    """C13, last sentence: value-based training loops act greedily on their current
+    estimates except with the configured / scheduled exploration probability"""
+    return loops_extra.c13_tasks()
+
+
+from . import loops_extra  # noqa: E402  (registers nothing in CONFIGS; needs everything above)
+
+# replay drivers by obligation prefix (the runner takes the last matching prefix)
+REPLAY = {"": "loops_native"}
+REPLAY.update(loops_extra.REPLAY)
+EXTRA_TRUSTED, EXTRA_ASSUMPTIONS, EXTRA_NOT_COVERED = loops_extra.TRUSTED, loops_extra.ASSUMPTIONS, loops_extra.NOT_COVERED
